@@ -24,6 +24,17 @@ SCENARIOS = [
      "steps": [{"op": "set_remote", "uri": "emmylua-remote://host/pkg/remote_thing.lua", "text": "---@class RemoteThing\n---@field n integer\nRemoteGlobal = 1\n"},
                {"op": "set", "name": "main.lua", "text": "---@type RemoteThing\nlocal t\nprint(t.n, RemoteGlobal)\n"},
                {"op": "set", "name": "old.lua", "text": "---@class OldThing\nOldGlobal = 1\n"}, {"op": "remove", "name": "old.lua"}, {"op": "reindex"}]},
+    {"id": "member_definition_order", "fresh": "batch",
+     "steps": [{"op": "set", "name": "types.lua", "text": "---@class Shape\nShape = {}\n"},
+               {"op": "set", "name": "first.lua", "text": "-- nothing about Shape.area yet\nlocal unrelated = 1\nreturn unrelated\n"},
+               {"op": "set", "name": "second.lua", "text": "Shape.area = \"text\"\n"},
+               {"op": "set", "name": "use.lua", "text": "local v = Shape.area\nreturn v\n"},
+               {"op": "set", "name": "first.lua", "text": "Shape.area = 1\n"}, {"op": "reindex"}]},
+    {"id": "field_declaration_order", "fresh": "batch",
+     "steps": [{"op": "set", "name": "p_first.lua", "text": "---@class (partial) Box\n---@field other boolean\n"},
+               {"op": "set", "name": "p_second.lua", "text": "---@class (partial) Box\n---@field size string\n"},
+               {"op": "set", "name": "p_use.lua", "text": "---@type Box\nlocal b\n---@type integer\nlocal size = b.size\nreturn size\n"},
+               {"op": "set", "name": "p_first.lua", "text": "---@class (partial) Box\n---@field size integer\n"}, {"op": "reindex"}]},
     {"id": "reindex_twice", "steps": [{"op": "set", "name": "a.lua", "text": A1}, {"op": "set", "name": "b.lua", "text": B}, {"op": "reindex"}, {"op": "reindex"}]},
 ]
 
